@@ -2,12 +2,13 @@
    attribute filter in the request, ordered newest first; offset and maximum items select the
    corresponding slice of that same ordered list, so consecutive pages partition the full result.
 
-   Model:  PK.Locate.Locate (locate_model mirrors KmipEngine._process_locate as it is; tie K in harness/c14.py,
-           applicability through the generated rule table PKGen.AttrRuleTable, tie T).
+   Model:  PK.Locate.Locate (locate_request mirrors KmipEngine._process_locate as it is - version gate,
+           object loop with "no value -> no match", date tracking, stable sort, slicing; tie K in
+           harness/c14.py, applicability / version_added / mask bits through the generated tables, tie T).
    Spec:   locate_spec = slice off max (sort_desc (filter (allowed && forallb matches && date_match) objs)).
 
-   Quantification: every store (list of objects), every access predicate `allowed` (hence every
-   requester and policy set), every filter list, every offset/maximum. *)
+   Quantification: every protocol version, every store (list of objects), every access predicate
+   `allowed` (hence every requester and policy set), every filter list, every offset/maximum. *)
 From Coq Require Import String ZArith List Bool Permutation Sorted.
 From PK Require Import Locate.Locate Locate.LocateProofs Locate.LocateExamples.
 Import ListNotations.
@@ -16,35 +17,55 @@ Open Scope list_scope.
 Open Scope Z_scope.
 
 (* ------------------------------------------------------------------------------------------------
-   1. Refinement.  Side conditions (side_conditions = wf_obj on the visible objects, wf_filters, crash_free):
-      wf_obj      Initial Date <> 0 (server clock past the epoch); algorithm, length, policy name not NULL
-                  (kmip.pie constructors / engine defaults guarantee it; harness confirms no such row can be made)
-      wf_filters  only the thirteen filter kinds of the property, mask filter within the defined bits,
-                  at most two Initial Date filters (one = exact, two = range; a third is refused)
-      crash_free  no visible object reaches an applicable filter whose attribute its class lacks
-                  (today: Cryptographic Algorithm/Length reaching a certificate - recorded under C13, DESIGN F3)
-      nonneg      offset and maximum are not negative
-   Each is shown necessary below (…_needed), and jointly satisfiable (locate_refines_spec_example). *)
-Theorem locate_refines_spec : forall allowed objs fs off mx,
-  side_conditions allowed objs fs -> nonneg off -> nonneg mx ->
-  locate_model allowed objs fs off mx = Ok (locate_spec allowed objs fs off mx).
+   1. Refinement.  Hypotheses:
+      gate_ok          every filter attribute exists under the request's protocol version (otherwise the
+                       request is refused with InvalidField: locate_failure_causes, first clause)
+      side_conditions  the visible objects are of the seven stored types and have Initial Date <> 0
+                       (server clock past the epoch); usage-mask filters ask only for defined bits;
+                       at most two Initial Date filters (one = exact, two = range; a third is refused)
+      nonneg           offset and maximum are not negative
+   No condition on the KIND of filter any more: a filter on an attribute for which an object has no
+   value (NULL column, class without the field, attribute the server does not keep) simply does not
+   match that object, in the model and in the spec.  Each remaining condition is shown necessary below
+   (..._needed) and they are jointly satisfiable (locate_refines_spec_example). *)
+Theorem locate_refines_spec : forall ver allowed objs fs off mx,
+  gate_ok ver fs = true -> side_conditions allowed objs fs -> nonneg off -> nonneg mx ->
+  locate_request ver allowed objs fs off mx = Ok (locate_spec allowed objs fs off mx).
 Proof. exact locate_refines_spec_lemma. Qed.
 Print Assumptions locate_refines_spec.
 
 Example locate_refines_spec_example :
-  side_conditions ex_allowed ex_store ex_filters /\
-  (locate_model ex_allowed ex_store ex_filters None None = Ok [3; 6; 7] /\
-   locate_model ex_allowed ex_store ex_filters (Some 1) (Some 1) = Ok [6] /\
-   locate_model ex_allowed ex_store [] None None = Ok [3; 6; 4; 1; 2; 7]).
+  (gate_ok ex_ver ex_filters = true /\ side_conditions ex_allowed ex_store ex_filters) /\
+  (locate_request ex_ver ex_allowed ex_store ex_filters None None = Ok [3; 6; 7] /\
+   locate_request ex_ver ex_allowed ex_store ex_filters (Some 1) (Some 1) = Ok [6] /\
+   locate_request ex_ver ex_allowed ex_store [] None None = Ok [3; 6; 4; 1; 2; 7]).
 Proof. exact (conj ex_side_conditions ex_answer). Qed.
 
-(* the syntactic condition under which crash_free holds for every store of the seven stored types *)
-Theorem crash_free_when_no_certificate_or_no_alg_len : forall objs fs,
-  Forall stored_type objs -> forallb supported fs = true ->
-  (forallb (fun f => negb (is_alg_or_len f)) fs = true \/ Forall (fun o => o_type o <> 1) objs) ->
-  crash_free objs fs.
-Proof. exact crash_free_sufficient. Qed.
-Print Assumptions crash_free_when_no_certificate_or_no_alg_len.
+(* the same with crash freedom as an explicit hypothesis instead of the stored types (independent of
+   the rule table), on the part of the operation behind the gate *)
+Theorem locate_refines_spec_general : forall allowed objs fs off mx,
+  side_conditions_general allowed objs fs -> nonneg off -> nonneg mx ->
+  locate_model allowed objs fs off mx = Ok (locate_spec allowed objs fs off mx).
+Proof. exact locate_model_refines_general. Qed.
+Print Assumptions locate_refines_spec_general.
+
+(* from the generated rule table: for the seven stored types the loop never reads a missing attribute *)
+Theorem crash_free_for_stored_types : forall objs fs, Forall stored_type objs -> crash_free objs fs.
+Proof. exact crash_free_stored. Qed.
+Print Assumptions crash_free_for_stored_types.
+
+Theorem locate_never_crashes : forall ver allowed objs fs off mx,
+  Forall stored_type (filter allowed objs) -> locate_request ver allowed objs fs off mx <> Crash.
+Proof. exact locate_never_crashes_lemma. Qed.
+Print Assumptions locate_never_crashes.
+
+(* absent values never match (what the repairs 074870c / 2d8db5c establish) *)
+Theorem absent_value_never_matches :
+  (locate_request ex_ver everyone [ex_cert 2 "bob" 100; ex_key 3 "alice" 101 128] [FLen 128] None None = Ok [3] /\
+   locate_spec everyone [ex_cert 2 "bob" 100; ex_key 3 "alice" 101 128] [FLen 128] None None = [3]) /\
+  (locate_request ex_ver everyone [ex_key 1 "alice" 100 128] [FOther "Activation Date"] None None = Ok [] /\
+   locate_spec everyone [ex_key 1 "alice" 100 128] [FOther "Activation Date"] None None = []).
+Proof. exact (conj cert_length_filter_no_match unsupported_filter_matches_nothing). Qed.
 
 (* the statement without side conditions, and why it is not a theorem of the faithful model *)
 Definition locate_refines_spec_unconditional_statement : Prop := locate_refines_spec_unconditional.
@@ -52,33 +73,37 @@ Theorem locate_refines_spec_unconditional_refuted : ~ locate_refines_spec_uncond
 Proof. exact locate_refines_spec_unconditional_fails. Qed.
 Print Assumptions locate_refines_spec_unconditional_refuted.
 
-Theorem crash_free_needed : locate_model everyone [ex_cert 2 "bob" 100] [FLen 128] None None = Crash.
-Proof. exact cert_length_filter_crashes. Qed.
 Theorem wf_idate_needed :
-  locate_model everyone [ex_key 1 "alice" 0 128] [FDate 50] None None = Ok [1] /\
+  locate_request ex_ver everyone [ex_key 1 "alice" 0 128] [FDate 50] None None = Ok [1] /\
   locate_spec everyone [ex_key 1 "alice" 0 128] [FDate 50] None None = [].
 Proof. exact epoch_date_filter_ignored. Qed.
-Theorem supported_kind_needed :
-  locate_model everyone [ex_key 1 "alice" 100 128] [FOther "Activation Date"] None None = Ok [1] /\
-  locate_spec everyone [ex_key 1 "alice" 100 128] [FOther "Activation Date"] None None = [].
-Proof. exact unsupported_filter_ignored. Qed.
-Theorem supported_mask_needed :
-  locate_model everyone [ex_key 1 "alice" 100 128] [FMask (4 + 2 ^ 30)] None None = Ok [1] /\
+Theorem mask_ok_needed :
+  locate_request ex_ver everyone [ex_key 1 "alice" 100 128] [FMask (4 + 2 ^ 30)] None None = Ok [1] /\
   locate_spec everyone [ex_key 1 "alice" 100 128] [FMask (4 + 2 ^ 30)] None None = [].
 Proof. exact undefined_mask_bits_ignored. Qed.
 Theorem two_dates_needed :
-  locate_model everyone [ex_key 1 "alice" 100 128] [FDate 1; FDate 2; FDate 3] None None = TooMany /\
-  locate_model everyone [] [FDate 1; FDate 2; FDate 3] None None = Ok [] /\
-  locate_model everyone [ex_key 1 "alice" 100 128] [FObjType 1; FDate 1; FDate 2; FDate 3] None None = Ok [].
+  locate_request ex_ver everyone [ex_key 1 "alice" 100 128] [FDate 1; FDate 2; FDate 3] None None = TooMany /\
+  locate_request ex_ver everyone [] [FDate 1; FDate 2; FDate 3] None None = Ok [] /\
+  locate_request ex_ver everyone [ex_key 1 "alice" 100 128] [FObjType 1; FDate 1; FDate 2; FDate 3] None None = Ok [].
 Proof. exact third_date_filter. Qed.
+Theorem stored_type_needed :
+  let t := mkObj 1 6 "alice" (Some "default") false 100 0 0 None None 0 [] [] [] in
+  locate_request ex_ver everyone [t] [FMask 4] None None = Crash.
+Proof. exact template_mask_filter_crashes. Qed.
+Theorem gate_examples :
+  locate_request (1, 0) everyone [ex_key 1 "alice" 100 128] [FSensitive false] None None = Refused /\
+  locate_request (1, 4) everyone [ex_key 1 "alice" 100 128] [FSensitive false] None None = Ok [1] /\
+  locate_request (2, 0) everyone [ex_key 1 "alice" 100 128] [FOther "No Such Attribute"] None None = Refused /\
+  locate_request (1, 0) everyone [ex_key 1 "alice" 100 128] [] None None = Ok [1].
+Proof. exact version_gate_examples. Qed.
 
 (* ------------------------------------------------------------------------------------------------
    2. Newest first, and never an object the requester may not locate: NO side condition. *)
-Theorem locate_sorted : forall allowed objs fs off mx ids,
-  locate_model allowed objs fs off mx = Ok ids ->
+Theorem locate_sorted : forall ver allowed objs fs off mx ids,
+  locate_request ver allowed objs fs off mx = Ok ids ->
   exists l, ids = map o_uid l /\ StronglySorted desc l /\
             (forall o, In o l -> In o objs /\ allowed o = true).
-Proof. exact locate_sorted_lemma. Qed.
+Proof. exact locate_request_sorted_lemma. Qed.
 Print Assumptions locate_sorted.
 
 (* objects with equal Initial Date keep their store order (Python's sorted is stable) *)
@@ -108,11 +133,12 @@ Print Assumptions newest_first_exists.
 
 (* ------------------------------------------------------------------------------------------------
    3. Exactly the permitted matching set (before slicing). *)
-Theorem locate_perm : forall allowed objs fs, side_conditions allowed objs fs ->
+Theorem locate_perm : forall ver allowed objs fs,
+  gate_ok ver fs = true -> side_conditions allowed objs fs ->
   exists l, locate_objs allowed objs fs = Ok l /\
-            locate_model allowed objs fs None None = Ok (map o_uid l) /\
+            locate_request ver allowed objs fs None None = Ok (map o_uid l) /\
             Permutation l (filter (selected allowed fs) objs).
-Proof. exact locate_perm_lemma. Qed.
+Proof. exact locate_request_perm_lemma. Qed.
 Print Assumptions locate_perm.
 
 Theorem locate_exact : forall allowed objs fs, side_conditions allowed objs fs ->
@@ -124,32 +150,32 @@ Proof. exact locate_exact_lemma. Qed.
 Print Assumptions locate_exact.
 
 (* ------------------------------------------------------------------------------------------------
-   4. Pages of size n > 0 at offsets 0, n, 2n, ... concatenate to the full answer and are pairwise
-      disjoint (identifiers are unique in the store).  No side condition beyond success of the
-      unsliced request. *)
-Theorem locate_slice : forall allowed objs fs off mx full,
+   4. Offset and maximum select the corresponding slice of that same ordered list; pages of size n > 0
+      at offsets 0, n, 2n, ... concatenate to the full answer and are pairwise disjoint (identifiers
+      are unique in the store).  No side condition beyond success of the unsliced request. *)
+Theorem locate_slice : forall ver allowed objs fs off mx full,
   nonneg off -> nonneg mx ->
-  locate_model allowed objs fs None None = Ok full ->
-  locate_model allowed objs fs off mx = Ok (slice off mx full).
-Proof. exact locate_slice_lemma. Qed.
+  locate_request ver allowed objs fs None None = Ok full ->
+  locate_request ver allowed objs fs off mx = Ok (slice off mx full).
+Proof. exact locate_request_slice_lemma. Qed.
 Print Assumptions locate_slice.
 
-Theorem pages_partition : forall allowed objs fs (n m : nat) full,
+Theorem pages_partition : forall ver allowed objs fs (n m : nat) full,
   (0 < n)%nat ->
-  locate_model allowed objs fs None None = Ok full ->
+  locate_request ver allowed objs fs None None = Ok full ->
   (List.length full <= m * n)%nat ->
   exists pages : nat -> list Z,
-    (forall k, locate_model allowed objs fs (Some (Z.of_nat k * Z.of_nat n)) (Some (Z.of_nat n)) = Ok (pages k)) /\
+    (forall k, locate_request ver allowed objs fs (Some (Z.of_nat k * Z.of_nat n)) (Some (Z.of_nat n)) = Ok (pages k)) /\
     concat (map pages (seq 0 m)) = full /\
     (NoDup (map o_uid objs) -> forall i j x, i <> j -> In x (pages i) -> ~ In x (pages j)).
-Proof. exact pages_partition_lemma. Qed.
+Proof. exact locate_request_pages_lemma. Qed.
 Print Assumptions pages_partition.
 
 Example pages_partition_example :
-  locate_model ex_allowed ex_store [] None None = Ok [3; 6; 4; 1; 2; 7] /\
-  locate_model ex_allowed ex_store [] (Some 0) (Some 4) = Ok [3; 6; 4; 1] /\
-  locate_model ex_allowed ex_store [] (Some 4) (Some 4) = Ok [2; 7] /\
-  locate_model ex_allowed ex_store [] (Some 8) (Some 4) = Ok [].
+  locate_request ex_ver ex_allowed ex_store [] None None = Ok [3; 6; 4; 1; 2; 7] /\
+  locate_request ex_ver ex_allowed ex_store [] (Some 0) (Some 4) = Ok [3; 6; 4; 1] /\
+  locate_request ex_ver ex_allowed ex_store [] (Some 4) (Some 4) = Ok [2; 7] /\
+  locate_request ex_ver ex_allowed ex_store [] (Some 8) (Some 4) = Ok [].
 Proof. vm_compute. repeat split. Qed.
 
 (* ------------------------------------------------------------------------------------------------
@@ -174,11 +200,13 @@ Proof. exact filters_order_irrelevant_lemma. Qed.
 Print Assumptions filters_order_irrelevant.
 
 (* ------------------------------------------------------------------------------------------------
-   6. The only ways the model fails. *)
-Theorem locate_failure_causes : forall allowed objs fs off mx,
-  (locate_model allowed objs fs off mx = TooMany -> (List.length (filter_dates fs) > 2)%nat) /\
-  (locate_model allowed objs fs off mx = Crash ->
+   6. The only ways the operation fails: the version gate (exactly), a third date filter, or - never for
+      the seven stored types - an applicable filter whose attribute the object's class lacks. *)
+Theorem locate_failure_causes : forall ver allowed objs fs off mx,
+  (locate_request ver allowed objs fs off mx = Refused <-> gate_ok ver fs = false) /\
+  (locate_request ver allowed objs fs off mx = TooMany -> (List.length (filter_dates fs) > 2)%nat) /\
+  (locate_request ver allowed objs fs off mx = Crash ->
      exists o f, In o objs /\ allowed o = true /\ In f fs /\
-       (applicable f (o_type o) = None \/ (applicable f (o_type o) = Some true /\ readable f o = false))).
+       applicable f (o_type o) = true /\ readable f o = false /\ ~ stored_type o).
 Proof. exact locate_failure_lemma. Qed.
 Print Assumptions locate_failure_causes.
